@@ -681,7 +681,9 @@ func Main(m *testing.M, property string) {
 	setFlag("rapid.shrinktime", "20s")
 	setFlag("rapid.steps", "30")
 	code := m.Run()
-	flush()
+	if os.Getenv("VERIF_FUZZ") == "" {
+		flush()
+	}
 	os.Exit(code)
 }
 
@@ -703,6 +705,9 @@ func RunAll(t *testing.T) {
 		names[def.name] = true
 		if only != nil && !only.MatchString(def.name) {
 			continue
+		}
+		if def.run == nil {
+			continue // replay-only (native fuzz target)
 		}
 		def := def
 		st := newStats(def.name)
@@ -753,4 +758,38 @@ func SortedKeys[V any](m map[string]V) []string {
 	}
 	sort.Strings(ks)
 	return ks
+}
+
+// ---------------------------------------------------------------------------
+// native fuzz targets
+
+// FuzzTarget registers a replay-only check for a native fuzz target and
+// returns the function the target calls for every input. The oracle lives
+// inside the target: a failing input is written as a replay file (carrying
+// the signature) before the fuzzer sees the failure.
+func FuzzTarget[C any](name string, oracle func(c C, o *Obs)) func(t *testing.T, c C) {
+	def := &checkDef{name: name}
+	def.replay = func(raw json.RawMessage) (*Obs, error) {
+		var c C
+		if err := json.Unmarshal(raw, &c); err != nil {
+			return nil, err
+		}
+		o := &Obs{}
+		safeOracle(func() { oracle(c, o) }, o)
+		return o, nil
+	}
+	registry = append(registry, def)
+	return func(t *testing.T, c C) {
+		o := &Obs{}
+		safeOracle(func() { oracle(c, o) }, o)
+		if o.fail == nil || KnownSig(o.fail.Sig) {
+			return
+		}
+		raw, err := json.Marshal(c)
+		if err != nil {
+			raw = []byte(fmt.Sprintf("%q", err.Error()))
+		}
+		p := writeReplay(name, raw, o.fail)
+		t.Fatalf("VIOLATION sig=%s %s (replay %s)", o.fail.Sig, o.fail.Msg, p)
+	}
 }
